@@ -8,4 +8,7 @@ use core::cmp::Ordering;
 verus! {
 // trusted: documented behaviour of Ordering::reverse (so that `a.cmp(b).reverse()` stays inside the verifiable subset)
 pub open spec fn ord_rev(o: Ordering) -> Ordering { match o { Ordering::Less => Ordering::Greater, Ordering::Equal => Ordering::Equal, Ordering::Greater => Ordering::Less } }
+// trusted: documented behaviour of Option::<&T>::copied (the by-value twin of `cloned` for Copy types)
+pub assume_specification<T: Copy>[ Option::<&T>::copied ](o: Option<&T>) -> (r: Option<T>)
+    ensures r == (match o { Some(x) => Some(*x), None => None::<T> });
 pub assume_specification[ Ordering::reverse ](o: Ordering) -> (r: Ordering) ensures r == ord_rev(o);
